@@ -1,0 +1,18 @@
+//go:build verif
+
+package datapath
+
+import (
+	"net"
+
+	"github.com/vishvananda/netlink"
+)
+
+// VerifDstIPRule exposes the classifier key computed by dstIPRule to the verification harness.
+func VerifDstIPRule(index int, ip *net.IPNet, dstIndex int) (off int32, val, mask uint32, err error) {
+	r, err := dstIPRule(index, ip, dstIndex, netlink.TCA_EGRESS_REDIR)
+	if err != nil {
+		return 0, 0, 0, err
+	}
+	return r.offset, r.value, r.mask, nil
+}
